@@ -1,4 +1,5 @@
 import Pokerface.Proofs.EngineResult
+import Pokerface.Proofs.GapsAStatic
 import Pokerface.Generated.Tables
 /-
   C01 — Chips are conserved at every point of a hand.
@@ -195,5 +196,91 @@ example : (sideAt 11).players.map (fun p => (p.bankroll, p.stack, p.wager, p.pot
 /-- the hypotheses of `closed_result` / `pots_published` hold for that state -/
 example : Reachable (sideAt 11) ∧ (sideAt 11).event = .gameClosed := ⟨sideReach 11, by decide⟩
 example : Reachable (sideAt 7) ∧ (sideAt 7).event = .roundClosed := ⟨sideReach 7, by decide⟩
+
+/-! ## The "starting bankroll" is the configured one -/
+
+/-- Makes "starting bankroll" explicit (sentences 1 and 2 speak of "each player's bankroll" / "the
+    starting bankroll"): in every state of every run — any operations, accepted or refused, any
+    arguments — from a configuration `start` accepts, the table has the configured number of seats
+    and the `bankroll` field of seat `i` is the bankroll configured for seat `i`; it never changes
+    during the hand.  (`Static`, Proofs/EnginePay.lean: the same holds for the seat index and the
+    three positions, `seat_is_configured`.) -/
+theorem bankroll_is_configured (c : Config) (wf : WFConfig c) (hs : (start c).2 = none) (ops : List Op) :
+    ((start c).1.run ops).players.length = c.seats.length ∧
+    ∀ i : Nat, (((start c).1.run ops).players[i]?).map (·.bankroll) = (c.seats[i]?).map (·.bankroll) := by
+  constructor
+  · have h := congrArg List.length (static_of_config c wf hs ops)
+    simp only [List.length_map] at h; rw [h]; exact players_length c
+  · intro i
+    have h := congrArg (Option.map (fun t : Nat × Bool × Bool × Bool × Int => t.2.2.2.2))
+      (seat_static_of_config c wf hs ops i)
+    simpa [Option.map_map, Function.comp_def, Player.static] using h
+
+/-- the same for all static fields of a seat: index, dealer / small-blind / big-blind position, bankroll -/
+theorem seat_is_configured (c : Config) (wf : WFConfig c) (hs : (start c).2 = none) (ops : List Op) (i : Nat)
+    (p : Player) (hp : ((start c).1.run ops).players[i]? = some p) :
+    ∃ s, c.seats[i]? = some s ∧ p.idx = i ∧ p.posDealer = s.dealer ∧ p.posSB = s.sb ∧ p.posBB = s.bb ∧
+      p.bankroll = s.bankroll := by
+  have h := seat_static_of_config c wf hs ops i
+  rw [hp] at h
+  cases hs' : c.seats[i]? with
+  | none => rw [hs'] at h; cases h
+  | some s =>
+    rw [hs'] at h
+    simp only [Option.map_some, Option.some.injEq, Player.static, Prod.mk.injEq] at h
+    exact ⟨s, rfl, h.1, h.2.1, h.2.2.1, h.2.2.2.1, h.2.2.2.2⟩
+
+/-- Sentence 1 with the configured bankroll: at every point of every hand, for every configured seat
+    `i` with bankroll `b`, the player at seat `i` has `b = stack + wager + pot`, none of them negative. -/
+theorem chip_inv_configured (c : Config) (wf : WFConfig c) (hs : (start c).2 = none) (ops : List Op) (i : Nat)
+    (s : SeatCfg) (hseat : c.seats[i]? = some s) :
+    ∃ p, ((start c).1.run ops).players[i]? = some p ∧
+      s.bankroll = p.stack + p.wager + p.pot ∧ 0 ≤ p.stack ∧ 0 ≤ p.wager ∧ 0 ≤ p.pot := by
+  obtain ⟨hlen, hb⟩ := bankroll_is_configured c wf hs ops
+  have hi : i < ((start c).1.run ops).players.length := by
+    rw [hlen]; exact (List.getElem?_eq_some_iff.mp hseat).1
+  refine ⟨((start c).1.run ops).players[i], List.getElem?_eq_getElem hi, ?_⟩
+  have hbi := hb i
+  rw [List.getElem?_eq_getElem hi, hseat] at hbi
+  simp only [Option.map_some, Option.some.injEq] at hbi
+  obtain ⟨h1, h2, h3, h4, _⟩ := chip_inv ((⟨c, ops, wf, hs, rfl⟩ : Reachable ((start c).1.run ops))) _ (List.getElem_mem hi)
+  exact ⟨by rw [← hbi]; exact h1, h2, h3, h4⟩
+
+/-- Sentence 2 ("every final stack equals the starting bankroll plus that player's change and is never
+    negative, and nobody loses more than they put in") restated with the CONFIGURED bankroll: when a run
+    from configuration `c` ends in `GameClosed`, there is a result whose changes sum to zero, with one row
+    per configured seat, in seat order; for the seat `i` configured with bankroll `b` the row says
+    `finalStack = b + changed`, `0 ≤ finalStack`, and the loss is at most what that seat put in
+    (`b − stack`, the stack being what the player record still holds), in particular at most `b`. -/
+theorem closed_result_configured (c : Config) (wf : WFConfig c) (hs : (start c).2 = none) (ops : List Op)
+    (he : ((start c).1.run ops).event = .gameClosed) :
+    ∃ r, ((start c).1.run ops).result = some r ∧ (r.players.map (·.changed)).sum = 0 ∧
+      r.players.length = c.seats.length ∧
+      ∀ (i : Nat) (s : SeatCfg), c.seats[i]? = some s →
+        ∃ (p : Player) (pr : PlayerResult), ((start c).1.run ops).players[i]? = some p ∧ r.players[i]? = some pr ∧
+          pr.idx = i ∧ pr.finalStack = s.bankroll + pr.changed ∧ 0 ≤ pr.finalStack ∧
+          -(s.bankroll - p.stack) ≤ pr.changed ∧ -s.bankroll ≤ pr.changed := by
+  have hr := (⟨c, ops, wf, hs, rfl⟩ : Reachable ((start c).1.run ops))
+  obtain ⟨r, hres, hz, hlen, hall⟩ := closed_result hr he
+  obtain ⟨hn, hb⟩ := bankroll_is_configured c wf hs ops
+  refine ⟨r, hres, hz, by rw [hlen, Game.n, hn], ?_⟩
+  intro i s hseat
+  have hi : i < ((start c).1.run ops).players.length := by
+    rw [hn]; exact (List.getElem?_eq_some_iff.mp hseat).1
+  have hp := List.getElem?_eq_getElem hi
+  obtain ⟨pr, hpr, hidx, h1, h2, h3⟩ := hall i _ hp
+  have hbi := hb i
+  rw [hp, hseat] at hbi
+  simp only [Option.map_some, Option.some.injEq] at hbi
+  have hacc := closed_accounts hr he _ (List.getElem_mem hi)
+  have hst := (chip_inv hr _ (List.getElem_mem hi)).2.1
+  refine ⟨_, pr, hp, hpr, hidx, by rw [← hbi]; exact h1, h2, ?_, ?_⟩ <;> omega
+
+/-- Non-vacuity: the side-pot hand above is such a run; the configured bankrolls 100, 7, 50 are the
+    `bankroll` fields at every step, and the closing rows read 50 = 100 − 50, 21 = 7 + 14, 86 = 50 + 36. -/
+example : WFConfig sideCfg ∧ (start sideCfg).2 = none ∧ ((start sideCfg).1.run sideOps).event = .gameClosed ∧
+    (sideCfg.seats.map (·.bankroll)) = [100, 7, 50] ∧
+    ((List.range 12).all fun k => (sideAt k).players.map (·.bankroll) == [100, 7, 50]) = true :=
+  ⟨⟨⟨by decide, by decide, by decide, by decide⟩⟩, by decide, by decide, by decide, by decide⟩
 
 end Pokerface.C01
